@@ -57,6 +57,12 @@ func genHistory(r *rand.Rand, maxSide, maxLen int, alphaOnly bool) animHist {
 		kmaxScript = 2 + r.Intn(2)
 		n = max(n, 2*kmaxScript+2)
 	}
+	// scripted flavour: the second picture repeats the first with durations that overflow one frame (a 1x1 filler frame
+	// becomes the previous frame), and the third erases most of the canvas (dispose-to-background candidate)
+	overflowScript := kmaxScript == 0 && r.Intn(10) == 0
+	if overflowScript {
+		n = max(n, 3)
+	}
 	for i := 0; i < n; i++ {
 		step := "initial"
 		forceClearMost := kmaxScript > 0 && i > kmaxScript && i%kmaxScript == 1%kmaxScript && r.Intn(3) != 0
@@ -73,6 +79,14 @@ func genHistory(r *rand.Rand, maxSide, maxLen int, alphaOnly bool) animHist {
 			if forceClearMost {
 				k = 12
 			}
+			if overflowScript { // identical picture (its duration overflows the frame before it), then most of the canvas goes transparent
+				switch i {
+				case 1:
+					k = 0
+				case 2:
+					k = 12
+				}
+			}
 			switch k {
 			case 12, 13: // most of the picture (anchored at a corner) becomes transparent, the rest is untouched
 				fw, fh := h.CW*(60+r.Intn(36))/100, h.CH*(60+r.Intn(41))/100
@@ -82,6 +96,9 @@ func genHistory(r *rand.Rand, maxSide, maxLen int, alphaOnly bool) animHist {
 				ox, oy := 0, 0
 				if r.Intn(4) == 0 {
 					ox, oy = h.CW-fw, h.CH-fh
+				}
+				if overflowScript && i == 2 && r.Intn(2) == 0 { // everything goes, only a sprite (if any) stays
+					fw, fh, ox, oy = h.CW, h.CH, 0, 0
 				}
 				step = fmt.Sprintf("clear-most[%d,%d,%d,%d]", ox, oy, ox+fw, oy+fh)
 				// optionally a small sprite inside the cleared area survives
@@ -97,6 +114,10 @@ func genHistory(r *rand.Rand, maxSide, maxLen int, alphaOnly bool) animHist {
 							continue
 						}
 						nxt.Pix[nxt.PixOffset(x, y)+3] = 0
+						if overflowScript && i == 2 { // transparent black, the value disposal leaves behind
+							o := nxt.PixOffset(x, y)
+							nxt.Pix[o], nxt.Pix[o+1], nxt.Pix[o+2] = 0, 0, 0
+						}
 					}
 				}
 			case 0:
@@ -214,6 +235,9 @@ func genHistory(r *rand.Rand, maxSide, maxLen int, alphaOnly bool) animHist {
 		h.Durations = append(h.Durations, durs[r.Intn(len(durs))])
 		if r.Intn(3) != 0 {
 			h.Durations[i] = []int{0, 20, 40, 100}[r.Intn(4)]
+		}
+		if overflowScript && i < 2 {
+			h.Durations[i] = []int{0xFFFFFF, 0xFFFFFE, 0x800000}[r.Intn(3)]
 		}
 		h.Steps = append(h.Steps, fmt.Sprintf("%s/%dms", step, h.Durations[i]))
 	}
